@@ -243,9 +243,9 @@ def rules(ctx, tab, tag=""):
                "other frames none; %d event(s), state stores %d, payload %s"
                % (len(r.sends), len(r.state_stores), [show(e["descs"][1])[:160] for e in r.sends]), site, trace_of(p),
                what="event-wrong")
-    ctx.floor("R3" + tag, "stores to Animator::state in animate", n_state, 4)
+    ctx.floor("R3" + tag, "stores to Animator::state in animate", n_state, 3)
     ctx.floor("R5" + tag, "rows sending AnimationStateChanged", n_send, 2)
-    ctx.floor("R0" + tag, "loop rows of animate", len(tab["rows"]), 12)
+    ctx.floor("R0" + tag, "loop rows of animate", len(tab["rows"]), 6)
 
 
 def rule_api(ctx, F, rule="R6"):
